@@ -22,6 +22,8 @@ from billiard.einfo import ExceptionInfo          # noqa: E402
 from harness import tasks                         # noqa: E402
 from harness.l2 import _frames                    # noqa: E402
 
+import billiard.queues as bqueues  # noqa: E402
+
 ACK, READY, TASK, NACK, DEATH = bp.ACK, bp.READY, bp.TASK, bp.NACK, bp.DEATH
 SOFT = bp.SIG_SOFT_TIMEOUT
 EXITS = []              # (pid, status) passed to the exit callback
@@ -72,6 +74,8 @@ TASKS = {
     'ok': tasks.work, 'raise': tasks.work_raise, 'base': tasks.work_base,
     'unpicklable': tasks.work_unpicklable, 'catch': tasks.work_catch_soft,
     'inexc': tasks.work_in_except, 'convert': tasks.work_convert,
+    'unpicklable_os': tasks.work_unpicklable_os,
+    'unpicklable_value': tasks.work_unpicklable_value,
 }
 
 
@@ -101,6 +105,8 @@ class Run:
                 ctx = vproc.VPoolContext()
                 inq, outq = ctx.SimpleQueue(), ctx.SimpleQueue()
                 synq = ctx.SimpleQueue() if cfg.get('synack') else None
+                if synq is not None and cfg.get('syn_late'):
+                    synq = PollQueue(ctx=ctx.get_context())
                 counter = ctx.Value('i')
                 event = ctx.Event() if cfg.get('end') == 'event' else None
                 w = bp.Worker(inq, outq, synq, None, (), cfg.get('quota'),
@@ -160,6 +166,7 @@ class Run:
         self.t_injected = None
         self.phase_at_inject = None
         self.guard_sleeps = 0
+        self.syn_polls = 0
         step = 0
         while vt.state == 'parked':
             p = vt.pending
@@ -217,13 +224,22 @@ class Run:
                             inq.put(None)       # event: wake it up anyway
                     else:
                         return True             # blocked for good
-                elif synbuf is not None and p.op == 'read' and \
-                        p.obj is synbuf and not synbuf.data:
+                elif synbuf is not None and not synbuf.data and (
+                        (p.op == 'read' and p.obj is synbuf) or
+                        (p.op == 'poll' and any(
+                            world.fds[fd][0].rbuf is synbuf
+                            for fd in p.obj if fd in world.fds))):
                     k = len(self.syn)
-                    ans = cfg.get('syn', ())
-                    a = ans[k] if k < len(ans) else 'ack'
-                    self.syn.append(a)
-                    synq.put((ACK if a == 'ack' else NACK, (0, 0, 0)))
+                    late = cfg.get('syn_late', 0) if k == 0 else 0
+                    if self.syn_polls < late:
+                        # a parent that is slow to answer: the worker's
+                        # one-second poll runs out, again and again
+                        self.syn_polls += 1
+                    else:
+                        ans = cfg.get('syn', ())
+                        a = ans[k] if k < len(ans) else 'ack'
+                        self.syn.append(a)
+                        synq.put((ACK if a == 'ack' else NACK, (0, 0, 0)))
                 elif p.op == 'sleep' and vt.pending.deadline is not None:
                     # inside the consumption guard: the parent's policy
                     pol = cfg.get('consume', 'prompt')
@@ -248,6 +264,18 @@ class Run:
         ms = _frames(_B)
         return (sum(1 for m in ms if m and m[0] == ACK),
                 sum(1 for m in ms if m and m[0] == READY), nfed)
+
+
+class PollQueue(bqueues.SimpleQueue):
+    """A queue object without the get_payload short cut (allowed by
+    Worker._make_recv_method): the worker polls it with its one-second
+    timeout instead of blocking in the read."""
+    get_payload = None
+
+    def get(self):
+        with self._rlock:
+            data = self._reader.recv_bytes()
+        return bqueues.ForkingPickler.loads(data)
 
 
 # ------------------------------------------------------------- WorkerSpec
@@ -507,6 +535,16 @@ def configs(tier):
             for quota in (None, 1, 2):
                 out.append(dict(tasks=list(seq), quota=quota, synack=True,
                                 syn=list(syn)))
+    # results whose serialisation fails with other exception types than the
+    # pickle module's own (an OSError, a ValueError from __reduce__)
+    for name in ('unpicklable_os', 'unpicklable_value'):
+        for quota in (None, 1):
+            out.append(dict(tasks=[name, 'ok'], quota=quota))
+    # a parent that answers the handshake only after more than a minute
+    # (the worker's 'WAIT FOR ACK TIMEOUT' path): the answer still decides
+    for syn in (['nack', 'ack'], ['ack', 'nack']):
+        out.append(dict(tasks=['ok', 'raise'], quota=1, synack=True,
+                        syn=syn, syn_late=63))
     # consumption guard
     for pol in ('late', 'never'):
         out.append(dict(tasks=['ok'], quota=1, consume=pol))
